@@ -505,6 +505,11 @@ def _verify_deserialize(self, decl):
             if got is None or exp is None:
                 ex.oblige("parse", z3.BoolVal(False), fd["name"], {"why": "field missing in the result", "property": "C03"})
                 continue
+            inner = got.val if isinstance(got, MaybeV) else got
+            if isinstance(inner, ZSeq) and inner.mutable:
+                ex.oblige("immutable-field", z3.BoolVal(False), fd["name"],
+                          {"why": f"deserialized field {fd['name']} holds a mutable bytearray reachable through its getter",
+                           "property": "C19"})
             ex.oblige("parse", self.same_value_opt(got, exp), fd["name"],
                       {"why": f"field {fd['name']} differs from what the reading rules prescribe", "property": "C03"})
         bs = o.fields.get("_byte_size")
